@@ -5,10 +5,14 @@
 (* is evaluated after every line.  One line per interface call, written by the fake under the   *)
 (* scenario's lock at the time of the call (so the file order is the order of the calls, also   *)
 (* for the concurrent relay goroutines).                                                        *)
-(* A scenario is the history of ONE service instance: Reset (the service is built, first duty), *)
-(* the lines of the first duty up to Ret, then for every further duty NextDuty and its lines up *)
-(* to Ret.  NextDuty is only possible once Propose has returned (pc = "done"); a Propose that   *)
-(* did not return is logged by the driver's watchdog as Hung, which no action explains.         *)
+(* A scenario is the history of ONE service instance: Reset (the service is built, the first    *)
+(* duty object is made and Prepare called for it), NewDuty for every further duty object, and   *)
+(* the lines of the calls Prepare (.. PrepRet) and Propose (ProposeCall .. Ret) for them, in the *)
+(* order in which they happened.  Calls overlap: every line carries the duty object h it belongs *)
+(* to, and the driver writes a Switch line whenever the next line belongs to another duty object *)
+(* than the one before; the invariants are evaluated on the pipeline of the duty object whose    *)
+(* call the line belongs to, against THAT object's duty.  A call that neither went on nor        *)
+(* returned is logged by the driver's watchdog as Hung, which no action explains.                *)
 EXTENDS Proposer, TraceLib
 
 VARIABLE l
@@ -16,7 +20,7 @@ tvars == <<vars, l>>
 
 TraceInit ==
     /\ l = 1
-    /\ k = 1 /\ past = {}
+    /\ k = 1 /\ cur = 1 /\ parked = NoneParked /\ past = {}
     /\ duty = [slot |-> 0, v |-> 0]
     /\ cfg = [graffiti |-> FALSE, nodeclient |-> FALSE, auctioneer |-> FALSE, unblindAll |-> FALSE]
     /\ pc = "done"
@@ -26,9 +30,10 @@ TraceInit ==
     /\ cancelled = FALSE /\ submitted = NoSub /\ subout = "none"
     /\ InitHWM
 
-IsEvent(e) == l <= TraceLen /\ Trace[l].ev = e /\ l' = l + 1
-
 T == Trace[l]
+
+\* a line belongs to the duty object whose pipeline is loaded (the Switch lines see to that)
+IsEvent(e) == l <= TraceLen /\ Trace[l].ev = e /\ l' = l + 1 /\ (e \notin {"Reset", "NewDuty", "Switch"} => T.h = cur)
 
 RootOf(x) == [id |-> x.id, kind |-> x.kind]
 PropOf(x) == [version |-> x.version, blinded |-> x.blinded, slot |-> x.slot, id |-> x.id]
@@ -38,7 +43,7 @@ DescOf(x) == [src |-> x.src, version |-> x.version, blinded |-> x.blinded, conta
 
 TraceReset ==
     /\ IsEvent("Reset")
-    /\ k' = 1 /\ past' = {}
+    /\ k' = 1 /\ cur' = 1 /\ parked' = NoneParked /\ past' = {}
     /\ duty' = [slot |-> T.slot, v |-> T.v]
     /\ cfg' = [graffiti |-> T.cfg.graffiti, nodeclient |-> T.cfg.nodeclient, auctioneer |-> T.cfg.auctioneer,
                unblindAll |-> T.cfg.unblindAll]
@@ -46,7 +51,9 @@ TraceReset ==
 
 TraceAccounts == IsEvent("Accounts") /\ AccountsCall(T.epoch, T.idxs, T.out)
 TraceRandao   == IsEvent("Randao") /\ RandaoCall(T.account, T.slot, T.out, T.token)
+TracePrepRet  == IsEvent("PrepRet") /\ PrepRet
 TracePropose  == IsEvent("ProposeCall") /\ ProposeCall
+TraceDrop     == IsEvent("Drop") /\ Drop
 TraceGraffiti == IsEvent("Graffiti") /\ T.out \in {"static", "template", "err"} /\ GraffitiCall(T.out)
 TraceNodeClient == IsEvent("NodeClient") /\ T.out \in {"ok", "err"} /\ NodeClientCall(T.out)
 TraceAuction  == IsEvent("Auction") /\ AuctionCall(T.out, SeqToSet(T.all), SeqToSet(T.providers))
@@ -57,13 +64,15 @@ TraceUnblind  == IsEvent("Unblind") /\ T.relay \in Relays /\ UnblindCall(T.relay
 TraceCancel   == IsEvent("Cancel") /\ Cancel
 TraceSubmit   == IsEvent("Submit") /\ SubmitCall(DescOf(T.desc), T.out)
 TraceRet      == IsEvent("Ret") /\ Ret
-\* the same service instance gets its next duty: only after Propose has returned for the current one
-TraceNextDuty == IsEvent("NextDuty") /\ NextDuty(T.slot, T.v)
+\* the same service instance gets another duty object (and Prepare is called for it)
+TraceNewDuty  == IsEvent("NewDuty") /\ T.h = k + 1 /\ NewDuty(T.slot, T.v)
+\* the next lines belong to another duty object
+TraceSwitch   == IsEvent("Switch") /\ Switch(T.h)
 
 TraceNext ==
     \/ TraceReset \/ TraceAccounts \/ TraceRandao \/ TracePropose \/ TraceGraffiti \/ TraceAuction
     \/ TraceProposal \/ TraceSign \/ TraceUnblind \/ TraceCancel \/ TraceSubmit \/ TraceRet
-    \/ TraceNodeClient \/ TraceNextDuty
+    \/ TraceNodeClient \/ TraceNewDuty \/ TraceSwitch \/ TracePrepRet \/ TraceDrop
 
 TraceSpec == TraceInit /\ [][TraceNext]_tvars
 
